@@ -29,7 +29,24 @@ def run(ctx):
         e["t"] = 2
     vlib.note_events(ctx, g + t)
     bad = vlib.validate_trace(ctx, "MerkleTrace", g + t, chunk=40)
-    for e in vlib.reproduce(ctx, binp, bad, history=g + t):
+    conf = vlib.reproduce(ctx, binp, bad, history=g + t)
+
+    def escalate(wb):
+        # the unexported split function deviated: hash trees of those sizes (where feasible) and a larger set of sizes
+        dd = ctx.rundir("escalate")
+        ns = sorted({e["in"]["n"] for e in wb if e["in"].get("n", 10 ** 9) <= 70000})[:6]
+        ins = [dict(op="merkle.Big", **{"in": dict(n=n, hash="sha256")}) for n in ns]
+        ins += [dict(op="merkle.Big", **{"in": dict(n=n, hash="blake2b")}) for n in (2, 3, 5, 9, 17, 33, 65, 129, 257, 1025, 4097, 8191, 8193)]
+        vlib.write_ndjson(dd + "/in.ndjson", ins)
+        vlib.run_driver(ctx, binp, "replay", dd + "/o.ndjson", infile=dd + "/in.ndjson")
+        ev = vlib.read_ndjson(dd + "/o.ndjson")
+        vlib.run_driver(ctx, binp, "record", dd + "/t.ndjson", n=120, extra_env={"VERIF_BIG": "1"})
+        ev += [x for x in vlib.read_ndjson(dd + "/t.ndjson") if x["op"] != "merkle.lp2"]
+        n0, t0 = ctx.events, ctx.traces
+        rej = vlib.validate_trace(ctx, "MerkleTrace", ev, chunk=40, label="T_escalate")
+        ctx.events, ctx.traces = n0, t0
+        return vlib.reproduce(ctx, binp, rej, history=ev)
+    for e in vlib.settle_whitebox(ctx, conf, {"merkle.lp2"}, escalate, label="merkle"):
         ctx.bad.append(dict(event=e, reason="real merkle.Hasher disagrees with the Merkle specification"))
     return vlib.finish(ctx, LEVEL, RULE, ASSUME,
                        technique="TLA+ spec Merkle over a free term algebra; TLC model n<=64; recording crypto.Hash traces rebuilt as terms by TLC; spec-chosen shapes folded with real hashes")
